@@ -40,7 +40,7 @@ theorem ownsWF_processHeader (r : Repo) (h : Hdr) (ok : Bool) (hr : RepoWF r) (h
       obtain ⟨pbr, k, d, hpb, _, _, hph⟩ := branchesFind_owner r hr.link hr.ids hr.list h.prev pb ph hp.parent
       refine ⟨pbr, by rw [List.getElem?_append_left (getElem?_lt _ _ _ hpb)]; exact hpb, ?_⟩
       rw [hnb]; simp only; omega
-  | extend pb ph lst w hp hprev hlen ha hb _ =>
+  | extend pb ph lst w hp hprev hlen hbw ha hb _ =>
     rw [ha]
     have hbr : r.arena[pb]? = some (r.br pb) := by
       unfold Repo.br; rw [List.getElem?_eq_getElem hlen]; rfl
@@ -86,7 +86,7 @@ theorem rootBase_processHeader (r : Repo) (h : Hdr) (ok : Bool) (hb0 : RootBase 
       subst hbi
       rw [hnb] at hpar
       cases hpar
-  | extend pb ph lst w hp hprev hlen ha hb _ =>
+  | extend pb ph lst w hp hprev hlen hbw ha hb _ =>
     rw [ha]
     have hbr : r.arena[pb]? = some (r.br pb) := by
       unfold Repo.br; rw [List.getElem?_eq_getElem hlen]; rfl
